@@ -36,7 +36,38 @@ T = [
  ('/tmp/mut4/C10/2', 'C10-10', 'C10', S % 'array values that are equal but not bit-identical (integer and float arrays with the same numbers)', 'consecutive wrapped values that are array_equal but not bit-identical, allow_repeats=False', 'VIOLATION (repeated consecutive values)'),
  ('/tmp/mut4/C10/3', 'C10-11', 'C10', 'yes', 'an empty dump earlier, a greedy value as last event of its dump, two or more events in the next non-empty dump', 'VIOLATION'),
 ]
-WAVE2 = []
+WAVE2 = [
+ ('/tmp/mut4/C11/1', 'C11-9', 'C11', 'yes', 'add_unmatched with a segment start exactly match_dist dumps from its nearest event, inspected before align()', 'VIOLATION'),
+ ('/tmp/mut4/C11/2', 'C11-10', 'C11', 'yes', 'concatenate_categorical with allow_repeats=True and an event repeating the previous value', 'VIOLATION'),
+ ('/tmp/mut4/C11/3', 'C11-11', 'C11', 'yes', 'add(event) without a value on a dump that already carries an event whose value differs from the one before', 'VIOLATION'),
+ ('/tmp/mut4/C12/1', 'C12-9', 'C12', 'yes', 'a numeric sensor with an initial_value in force and a dump before the first usable sample', 'VIOLATION'),
+ ('/tmp/mut4/C12/2', 'C12-10', 'C12', S % "the data set's own virtual sensors (lst, ra, dec, parangle, target_[xy]_<projection>_<azel|radec>, mjd) compared with katpoint dump by dump; this also exposed a defect of the unchanged tree, repaired in /repo ce58373", 'the radec coordinate system of the target-coordinate sensors', 'VIOLATION (target_x_ARC_radec differs from the documented function of ra / dec)'),
+ ('/tmp/mut4/C12/3', 'C12-11', 'C12', 'yes', 'a sensor with a status field whose samples are all unreadable (at least one sample)', 'VIOLATION'),
+ ('/tmp/mut4/C13/1', 'C13-9', 'C13', S % 'end-to-end data sets with self-calibration on two targets observed alternately (also caught by C14)', 'an l2 product, two or more self-cal targets with solutions interleaved in time', 'VIOLATION (vis is not stored * factor)'),
+ ('/tmp/mut4/C13/2', 'C13-10', 'C13', S % 'end-to-end data sets with a two-part bandpass whose parts have different solution times (also caught by C14)', 'a multi-part product one of whose parts misses a solution time and has a later one', 'VIOLATION'),
+ ('/tmp/mut4/C13/3', 'C13-11', 'C13', S % 'end-to-end data sets whose gain solutions are all later than the last dump (also caught by C14)', 'a gain product whose solutions all lie after the loaded dumps', 'VIOLATION (weights / flags of uncalibrated data not zeroed / raised)'),
+ ('/tmp/mut4/C14/1', 'C14-9', 'C14', 'yes', 'a target change between two consecutive gain solutions with different flux densities', 'VIOLATION'),
+ ('/tmp/mut4/C14/2', 'C14-10', 'C14', 'yes', 'a first gain solution stamped before the end of dump 0', 'VIOLATION'),
+ ('/tmp/mut4/C14/3', 'C14-11', 'C14', 'partly (not by C14, whose claim ends at the correction sensors; by C13, which owns the channel maps of calc_correction)', 'a per-channel gain product on a cal stream with as many channels as the data but other frequencies', 'C14 exit 0; C13 VIOLATION'),
+ ('/tmp/mut4/C15/1', 'C15-9', 'C15', 'yes', 'weights chunked along the baseline axis while correlator_data is not', 'VIOLATION'),
+ ('/tmp/mut4/C15/2', 'C15-10', 'C15', 'yes', 'flagav=True, two or more output time bins, a flag in an earlier bin only', 'VIOLATION'),
+ ('/tmp/mut4/C15/3', 'C15-11', 'C15', S % 'excision read from data sets opened with applycal and gains present', 'a v4 data set with CBF dump information opened with applycal, gain amplitudes away from 1, d.excision read', 'VIOLATION'),
+ ('/tmp/mut4/C16/1', 'C16-9', 'C16', 'partly (not by C16, which reads flags of the opened stream; by C06 and C18, which own the attached flags stream)', 'an attached sdp.flags stream whose chunk_info has no prefix item and whose chunking equals the L0 flags', 'C16 exit 0; C06 and C18 VIOLATION'),
+ ('/tmp/mut4/C16/2', 'C16-10', 'C16', 'yes', 'a v2 file with Markup/flags but no flags_description table, flags selected by name', 'VIOLATION'),
+ ('/tmp/mut4/C16/3', 'C16-11', 'C16', 'yes', 'a dumps selection given as a strided / offset slice or index list, then select(flags=...) or select(weights=...)', 'VIOLATION'),
+ ('/tmp/mut4/C17/1', 'C17-9', 'C17', 'yes', 'a capture whose first dump lands exactly on the fix date', 'VIOLATION'),
+ ('/tmp/mut4/C17/2', 'C17-10', 'C17', 'partly (not by C17, whose data sets have no inheriting stream; by C18, which owns the namespace order)', 'an opened stream with an inherit key whose parent defines int_time / n_chans / first_timestamp differently', 'C17 exit 0; C18 VIOLATION'),
+ ('/tmp/mut4/C17/3', 'C17-11', 'C17', S % 'several RDB files opened together with dumps / channels preselects', 'katdal.open on a list of RDB files with a dumps preselect', 'VIOLATION (dumps preselect accepted)'),
+ ('/tmp/mut4/C18/1', 'C18-9', 'C18', 'yes', 'capture block / stream overrides given only in the query of a scheme-less path', 'VIOLATION'),
+ ('/tmp/mut4/C18/2', 'C18-10', 'C18', 'yes', 'a local path that exists but is not a readable file (the capture block directory)', 'VIOLATION'),
+ ('/tmp/mut4/C18/3', 'C18-11', 'C18', 'yes', 'an inherit chain of two or more links with a key defined only at the far end', 'VIOLATION'),
+ ('/tmp/mut4/C19/1', 'C19-9', 'C19', 'yes', 'parts with the same antennas and the same set of correlation products in another order', 'VIOLATION'),
+ ('/tmp/mut4/C19/2', 'C19-10', 'C19', 'yes', 'a selection that empties a non-final part followed by a second-stage index', 'VIOLATION'),
+ ('/tmp/mut4/C19/3', 'C19-11', 'C19', S % 'boolean and integer sensors present in a subset of the parts', 'a boolean sensor present in only some of the concatenated parts', 'VIOLATION'),
+ ('/tmp/mut4/C20/1', 'C20-9', 'C20', 'yes', 'two threads first-accessing the same child of a nested DaskLazyIndexer with one preemption between two particular lines', 'VIOLATION no-failing-input-found (the observed transitions are no longer steps of the verified transition system; the extended search met no schedule with a wrong value)'),
+ ('/tmp/mut4/C20/2', 'C20-10', 'C20', S % 'the sensor-cache model and scenarios with unknown names and failing creation functions (KeyError unwinding), new theorem rlock_released_on_every_exit', 'a lookup that raises inside get() in one thread that stays alive, then another thread using the cache', 'VIOLATION (deadlock, with the schedule)'),
+ ('/tmp/mut4/C20/3', 'C20-11', 'C20', S % "the data set's own virtual sensors under the controlled scheduler, every single preemption point, np.empty poisoned with NaN (patch re-based onto /repo ce58373)", 'target_x in one thread and target_y in another with a preemption inside _calc_target_coords', 'VIOLATION (thread 1 obtained [nan, nan]; before the strengthening: no-failing-input-found)'),
+]
 
 if __name__ == '__main__':
     a.T = []
